@@ -91,6 +91,21 @@ let classify_cg line (prm : params) (p0 : probe) (last : probe) (it : Float64.t)
     if f > f0 then count "cg_success_flags" "f-above-f0"
   end
 
+(* ---- C07_evaluations_bounded on the implementation: recorded evaluations of one lsearchk_t::get <= 2*maxit + do_get bound
+   (hand-coded here: backtrack n, lemarechal n-1, fletcher 2n-1, morethuente n, cgdescent 7n+1) ---- *)
+let alg_names = [| "backtrack"; "lemarechal"; "fletcher"; "morethuente"; "cgdescent" |]
+let evb_best = Array.make 5 (0.0, 0, 0, 0)      (* ratio, probes, bound, max_iterations *)
+let eval_bound algi n =
+  2 * n + (match algi with 0 -> n | 1 -> n - 1 | 2 -> 2 * n - 1 | 3 -> n | _ -> 7 * n + 1)
+let check_eval_bound line algi maxit probes =
+  if algi >= 0 && algi < 5 then begin
+    let b = eval_bound algi maxit in
+    if probes > b then propfail line (Printf.sprintf "evaluations-bound: %d evaluations > %d = bound of C07_evaluations_bounded (%s, max_iterations=%d)" probes b alg_names.(algi) maxit);
+    let r = float_of_int probes /. float_of_int b in
+    let (r0, _, _, _) = evb_best.(algi) in
+    if r > r0 then evb_best.(algi) <- (r, probes, b, maxit)
+  end
+
 let do_const line rest =
   match words rest with
   | [a; b; c; d] ->
@@ -140,6 +155,7 @@ let do_ls line rest =
              ({ pv = (trim a.(0) = "1"); pf = fl a.(1); pg = fl a.(2) }, Array.init nj (fun j -> fl a.(3 + j))))
              (String.split_on_char ';' (trim probes))) in
        let n = Array.length recs in
+       check_eval_bound line algi (int_of_string c.(1)) n;
        let overrun = ref false in
        let phi k _t =
          let k = int_of_z k in
@@ -212,4 +228,5 @@ let () =
   Hashtbl.iter (fun h t ->
       let kv = List.sort compare (Hashtbl.fold (fun k n acc -> (k, n) :: acc) t []) in
       Printf.printf "HIST %s %s\n" h (String.concat " " (List.map (fun (k, n) -> Printf.sprintf "%s=%d" k n) kv))) hist;
+  Array.iteri (fun i (r, p, b, mi) -> Printf.printf "EVALB %s max_ratio=%.4f evaluations=%d bound=%d max_iterations=%d\n" alg_names.(i) r p b mi) evb_best;
   Printf.printf "MODEL-DONE checked=%d mismatches=%d\n" !total !mism
